@@ -3,6 +3,7 @@ package main
 // AL — equivalent type notations of the configuration denote the same value (C21, narrow).
 
 import (
+	"go/token"
 	"fmt"
 	"go/ast"
 	"go/constant"
@@ -304,45 +305,39 @@ func engineAL(w *World, tier string) *EngineResult {
 			}
 		}
 	}
+	// the union constructors of the `?` and `|` arms of the notation parser, found in the SSA
+	// form: the calls of a union constructor of base in the blocks that the true edge of the
+	// arm's test dominates (the test may be an if, a case of a tagless switch, or one conjunct
+	// of a && chain)
 	unionCalls := map[string]types.Object{} // arm ('?' / '|') -> union constructor
 	if notationFn != nil {
-		for _, s := range notationFn.Body.List {
-			ifs, ok := s.(*ast.IfStmt)
-			if !ok {
-				continue
-			}
-			arm := ""
-			ast.Inspect(ifs.Cond, func(nd ast.Node) bool {
-				if bl, ok := nd.(*ast.BasicLit); ok {
-					switch bl.Value {
-					case "'?'":
-						arm = "?"
-					case `"|"`:
-						arm = "|"
-					}
-				}
-				return true
-			})
-			if arm == "" {
-				continue
-			}
-			ast.Inspect(ifs.Body, func(nd ast.Node) bool {
-				if c, ok := nd.(*ast.CallExpr); ok {
-					if sel, ok := c.Fun.(*ast.SelectorExpr); ok && strings.Contains(sel.Sel.Name, "Union") {
-						unionCalls[arm] = info.ObjectOf(sel.Sel)
+		if nfn := w.fnOfObj(info.ObjectOf(notationFn.Name)); nfn != nil {
+			for arm, pred := range map[string]func(ssa.Value) bool{"?": isRuneTest('?'), "|": isContainsTest("|")} {
+				for _, b := range armBlocks(nfn, pred) {
+					for _, ins := range b.Instrs {
+						c, ok := ins.(*ssa.Call)
+						if !ok {
+							continue
+						}
+						cal := c.Call.StaticCallee()
+						if cal == nil || pkgShort(cal) != "base" || !strings.Contains(cal.Name(), "Union") || cal.Object() == nil {
+							continue
+						}
+						unionCalls[arm] = cal.Object()
 						if arm == "?" {
-							optCtor = info.ObjectOf(sel.Sel)
-							// second element must be the nil table value
-							if cl, ok := c.Args[0].(*ast.CompositeLit); ok && len(cl.Elts) == 2 {
-								if id, ok := cl.Elts[1].(*ast.Ident); !ok || info.ObjectOf(id) != nilG {
+							optCtor = cal.Object()
+							// the literal handed over has two elements and the second is the nil
+							// table value
+							if len(c.Call.Args) == 1 {
+								els := sliceLiteralElems(c.Call.Args[0])
+								if len(els) != 2 || !isLoadOfGlobalObj(els[1], nilG) {
 									optCtor = nil
 								}
 							}
 						}
 					}
 				}
-				return true
-			})
+			}
 		}
 	}
 	for _, l := range labels {
@@ -422,20 +417,26 @@ func engineAL(w *World, tier string) *EngineResult {
 		n++
 		u := unionCalls["|"]
 		others := map[types.Object]int{}
-		for _, f := range bp.Syntax {
-			for _, d := range f.Decls {
-				fd, ok := d.(*ast.FuncDecl)
-				if !ok || fd.Body == nil || fd == notationFn {
-					continue
-				}
-				ast.Inspect(fd.Body, func(nd ast.Node) bool {
-					if c, ok := nd.(*ast.CallExpr); ok {
-						if sel, ok := c.Fun.(*ast.SelectorExpr); ok && strings.Contains(sel.Sel.Name, "Union") {
-							others[info.ObjectOf(sel.Sel)]++
+		nfnSSA := w.fnOfObj(info.ObjectOf(notationFn.Name))
+		for _, fn := range w.Funcs {
+			if pkgShort(fn) != "builtin" || fn == nfnSSA || fn.Synthetic != "" {
+				continue
+			}
+			top := fn
+			for top.Parent() != nil {
+				top = top.Parent()
+			}
+			if top == nfnSSA || top.Synthetic != "" {
+				continue
+			}
+			for _, b := range fn.Blocks {
+				for _, ins := range b.Instrs {
+					if c, ok := ins.(*ssa.Call); ok {
+						if cal := c.Call.StaticCallee(); cal != nil && pkgShort(cal) == "base" && strings.Contains(cal.Name(), "Union") && cal.Object() != nil {
+							others[cal.Object()]++
 						}
 					}
-					return true
-				})
+				}
 			}
 		}
 		okv := u != nil && len(others) == 1 && others[u] > 0
@@ -461,48 +462,160 @@ func engineAL(w *World, tier string) *EngineResult {
 	if argFn == nil {
 		r.undecided("AL-flags", "builtin", "argument parser", "unresolved anchor: func([]MethodArgument) []T", "-")
 	} else {
+		// the argument parser and the functions of the loader it is split into (static calls,
+		// two levels; the notation parser and the type-name table are not part of it)
+		region := []*ssa.Function{argFn}
+		{
+			seen := map[*ssa.Function]bool{argFn: true}
+			skip := map[*ssa.Function]bool{}
+			if notationFn != nil {
+				skip[w.fnOfObj(info.ObjectOf(notationFn.Name))] = true
+			}
+			skip[w.fnOfObj(info.ObjectOf(convFn.Name))] = true
+			frontier := []*ssa.Function{argFn}
+			for depth := 0; depth < 2; depth++ {
+				var next []*ssa.Function
+				for _, f := range frontier {
+					for _, b := range f.Blocks {
+						for _, ins := range b.Instrs {
+							if c, ok := ins.(*ssa.Call); ok {
+								if cal := c.Call.StaticCallee(); cal != nil && pkgShort(cal) == "builtin" && len(cal.Blocks) > 0 && !seen[cal] && !skip[cal] {
+									seen[cal] = true
+									region = append(region, cal)
+									next = append(next, cal)
+								}
+							}
+						}
+					}
+				}
+				frontier = next
+			}
+		}
 		// setter called under is_default: the call guarded by a load of the field tagged is_default
 		setters := map[*ssa.Function][]string{} // setter -> guards ("is_default" / "'?'")
 		asteriskStores := 0
 		asteriskFromField := false
-		for _, b := range argFn.Blocks {
-			for _, ins := range b.Instrs {
-				switch x := ins.(type) {
-				case *ssa.Call:
-					cal := x.Call.StaticCallee()
-					if cal == nil || cal.Signature.Recv() == nil || !isTPtr(cal.Signature.Recv().Type()) || !strings.Contains(strings.ToLower(cal.Name()), "default") {
+		starTest := isRuneTest('*')
+		// functions of the region that answer "the `*` prefix was there" in a boolean result:
+		// the constant true is returned only in the `*` arm
+		starResult := map[*ssa.Function]map[int]bool{}
+		for _, f := range region {
+			inStar := map[*ssa.BasicBlock]bool{}
+			for _, b := range armBlocks(f, starTest) {
+				inStar[b] = true
+			}
+			for _, b := range f.Blocks {
+				rt, ok := b.Instrs[len(b.Instrs)-1].(*ssa.Return)
+				if !ok {
+					continue
+				}
+				for ri, rv := range rt.Results {
+					k, isC := rv.(*ssa.Const)
+					if !isC || k.Value == nil || k.Value.Kind() != constant.Bool {
 						continue
 					}
-					// classify the guard
-					g := "unguarded"
-					for cur := b; cur != nil; cur = cur.Idom() {
-						d := cur.Idom()
-						if d == nil {
-							break
+					if starResult[f] == nil {
+						starResult[f] = map[int]bool{}
+					}
+					if _, known := starResult[f][ri]; !known {
+						starResult[f][ri] = true
+					}
+					if cBool(k.Value) != inStar[b] {
+						starResult[f][ri] = false // true outside the arm, or false inside it
+					}
+				}
+			}
+		}
+		// v is a boolean that is true exactly when a `*` arm was taken: the test itself, or
+		// the result of a region function as classified above
+		var starIndicator func(v ssa.Value) bool
+		starIndicator = func(v ssa.Value) bool {
+			if starTest(v) {
+				return true
+			}
+			if ex, ok := v.(*ssa.Extract); ok {
+				if c, ok := ex.Tuple.(*ssa.Call); ok {
+					if cal := c.Call.StaticCallee(); cal != nil && starResult[cal][ex.Index] {
+						return true
+					}
+				}
+			}
+			if c, ok := v.(*ssa.Call); ok {
+				if cal := c.Call.StaticCallee(); cal != nil && starResult[cal][0] {
+					return true
+				}
+			}
+			return false
+		}
+		for _, rf := range region {
+			for _, b := range rf.Blocks {
+				for _, ins := range b.Instrs {
+					switch x := ins.(type) {
+					case *ssa.Call:
+						cal := x.Call.StaticCallee()
+						if cal == nil || cal.Signature.Recv() == nil || !isTPtr(cal.Signature.Recv().Type()) || !strings.Contains(strings.ToLower(cal.Name()), "default") {
+							continue
 						}
-						if iff, ok := d.Instrs[len(d.Instrs)-1].(*ssa.If); ok && len(cur.Preds) == 1 {
-							if u, ok := iff.Cond.(*ssa.UnOp); ok {
-								if fa, ok := u.X.(*ssa.FieldAddr); ok && fieldNameOf(fa) == "IsDefault" {
+						// classify the guard
+						g := "unguarded"
+						for cur := b; cur != nil; cur = cur.Idom() {
+							d := cur.Idom()
+							if d == nil {
+								break
+							}
+							if iff, ok := d.Instrs[len(d.Instrs)-1].(*ssa.If); ok && len(cur.Preds) == 1 {
+								if u, ok := iff.Cond.(*ssa.UnOp); ok {
+									if fa, ok := u.X.(*ssa.FieldAddr); ok && fieldNameOf(fa) == "IsDefault" {
+										g = "is_default"
+									}
+								}
+								if f2, ok := iff.Cond.(*ssa.Field); ok && fieldNameOf(f2) == "IsDefault" {
 									g = "is_default"
 								}
-							}
-							if bo, ok := iff.Cond.(*ssa.BinOp); ok {
-								if k, ok := bo.Y.(*ssa.Const); ok && constVal(k).k == kInt && constVal(k).i == '?' {
+								if isRuneTest('?')(iff.Cond) && d.Succs[0] == cur {
 									g = "'?'"
 								}
 							}
 						}
-					}
-					setters[cal] = append(setters[cal], g)
-				case *ssa.Store:
-					if fa, ok := x.Addr.(*ssa.FieldAddr); ok {
-						switch fieldNameOf(fa) {
-						case "IsAsterisk":
-							asteriskStores++
-						case "IsBuiltinAsterisk":
-							if u, ok := x.Val.(*ssa.UnOp); ok {
-								if f2, ok := u.X.(*ssa.FieldAddr); ok && fieldNameOf(f2) == "IsAsterisk" {
+						setters[cal] = append(setters[cal], g)
+					case *ssa.Store:
+						if fa, ok := x.Addr.(*ssa.FieldAddr); ok {
+							switch fieldNameOf(fa) {
+							case "IsAsterisk":
+								asteriskStores++
+							case "IsBuiltinAsterisk":
+								if loadsField(x.Val, "IsAsterisk") {
 									asteriskFromField = true
+								}
+								// … or a local that starts as the is_asterisk field and is set
+								// to true where a `*` arm was taken
+								if ph, ok := x.Val.(*ssa.Phi); ok {
+									fromField, fromStar := false, false
+									for ei, e := range ph.Edges {
+										if loadsField(e, "IsAsterisk") {
+											fromField = true
+										}
+										if k, ok := e.(*ssa.Const); ok && cBool(k.Value) {
+											// the edge comes from the true side of a `*` indicator
+											pb := ph.Block().Preds[ei]
+											for cur := pb; cur != nil; cur = cur.Idom() {
+												d := cur.Idom()
+												if d == nil {
+													break
+												}
+												if iff, ok := d.Instrs[len(d.Instrs)-1].(*ssa.If); ok && starIndicator(iff.Cond) && (d.Succs[0] == cur || (cur == pb && d == pb)) {
+													fromStar = true
+												}
+											}
+											if iff, ok := pb.Instrs[len(pb.Instrs)-1].(*ssa.If); ok && starIndicator(iff.Cond) && pb.Succs[0] == ph.Block() {
+												fromStar = true
+											}
+										}
+									}
+									if fromField && fromStar {
+										asteriskFromField = true
+										asteriskStores++
+									}
 								}
 							}
 						}
@@ -545,4 +658,122 @@ func engineAL(w *World, tier string) *EngineResult {
 	r.floor("alias_rows", 12)
 	r.finish()
 	return r
+}
+
+
+// ---- helpers of the AL rules (SSA form) ----
+
+// isRuneTest: v is `x == 'r'` (either operand order).
+func isRuneTest(r rune) func(ssa.Value) bool {
+	return func(v ssa.Value) bool {
+		bo, ok := v.(*ssa.BinOp)
+		if !ok || bo.Op != token.EQL {
+			return false
+		}
+		for _, o := range []ssa.Value{bo.X, bo.Y} {
+			if k, ok := o.(*ssa.Const); ok {
+				if cv := constVal(k); cv.k == kInt && cv.i == int64(r) {
+					return true
+				}
+			}
+		}
+		return false
+	}
+}
+
+// isContainsTest: v is strings.Contains(x, lit).
+func isContainsTest(lit string) func(ssa.Value) bool {
+	return func(v ssa.Value) bool {
+		c, ok := v.(*ssa.Call)
+		if !ok {
+			return false
+		}
+		cal := c.Call.StaticCallee()
+		if cal == nil || cal.String() != "strings.Contains" || len(c.Call.Args) != 2 {
+			return false
+		}
+		k, ok := c.Call.Args[1].(*ssa.Const)
+		return ok && constVal(k).k == kStr && constVal(k).s == lit
+	}
+}
+
+// armBlocks: the blocks of fn dominated by the true edge of an If whose condition satisfies pred.
+func armBlocks(fn *ssa.Function, pred func(ssa.Value) bool) []*ssa.BasicBlock {
+	var out []*ssa.BasicBlock
+	for _, d := range fn.Blocks {
+		iff, ok := d.Instrs[len(d.Instrs)-1].(*ssa.If)
+		if !ok || !pred(iff.Cond) || len(d.Succs) != 2 {
+			continue
+		}
+		t := d.Succs[0]
+		if len(t.Preds) != 1 {
+			continue
+		}
+		for _, b := range fn.Blocks {
+			if t.Dominates(b) {
+				out = append(out, b)
+			}
+		}
+	}
+	return out
+}
+
+// sliceLiteralElems: the values stored into the backing array of a slice literal, by index.
+func sliceLiteralElems(v ssa.Value) []ssa.Value {
+	sl, ok := v.(*ssa.Slice)
+	if !ok {
+		return nil
+	}
+	al, ok := sl.X.(*ssa.Alloc)
+	if !ok || al.Referrers() == nil {
+		return nil
+	}
+	at, ok := al.Type().(*types.Pointer).Elem().Underlying().(*types.Array)
+	if !ok {
+		return nil
+	}
+	out := make([]ssa.Value, at.Len())
+	for _, ref := range *al.Referrers() {
+		ia, ok := ref.(*ssa.IndexAddr)
+		if !ok || ia.Referrers() == nil {
+			continue
+		}
+		k, ok := ia.Index.(*ssa.Const)
+		if !ok {
+			continue
+		}
+		idx := constVal(k)
+		if idx.k != kInt || idx.i < 0 || idx.i >= at.Len() {
+			continue
+		}
+		for _, r2 := range *ia.Referrers() {
+			if st, ok := r2.(*ssa.Store); ok && st.Addr == ssa.Value(ia) {
+				out[idx.i] = st.Val
+			}
+		}
+	}
+	return out
+}
+
+// isLoadOfGlobalObj: v is a load of the package-level variable obj.
+func isLoadOfGlobalObj(v ssa.Value, obj types.Object) bool {
+	u, ok := v.(*ssa.UnOp)
+	if !ok || obj == nil {
+		return false
+	}
+	g, ok := u.X.(*ssa.Global)
+	return ok && g.Object() == obj
+}
+
+// loadsField: v is a load of (or a field read of) a struct field with that name.
+func loadsField(v ssa.Value, name string) bool {
+	switch x := v.(type) {
+	case *ssa.UnOp:
+		if fa, ok := x.X.(*ssa.FieldAddr); ok && fieldNameOf(fa) == name {
+			return true
+		}
+	case *ssa.Field:
+		return fieldNameOf(x) == name
+	}
+	return false
 }
